@@ -121,6 +121,22 @@ def twin_projects(rng, n):
     return out
 
 
+def deep_chain_projects():
+    """include chains nested far deeper than any fixture (the language sets no limit): every level
+    declares something before and after its INCLUDE, in a directory one level further down; with and
+    without a rule fault in the innermost file"""
+    out = []
+    for depth in (5, 9, 10, 11, 12, 14, 20, 33):
+        for faulty in (False, True):
+            files = {"root.jst": b"JSIGHT 0.3\nTYPE @r0 any\nINCLUDE l1.jst\nGET /deep%d\n  200 @in\n" % depth}
+            for k in range(1, depth + 1):
+                d = "sub/" * (k - 1)
+                inner = b"TYPE @in any\n" + (b"TYPE @r0 any\n" if faulty else b"") if k == depth else b"INCLUDE sub/l%d.jst\n" % (k + 1)
+                files["%sl%d.jst" % (d, k)] = b"TYPE @a%d any\n" % k + inner + (b"TYPE @b%d any\n" % k if k % 2 else b"")
+            out.append(files)
+    return out
+
+
 def context_fault_projects(rng, n):
     """a directive that is refused for its CONTEXT (raised when it is attached to the tree, i.e. by
     whatever comes next) as the last directive of its file piece before an INCLUDE: the error must
@@ -162,7 +178,7 @@ def matches_finding(v, f):
 def run(tier, out, model_ok, proof):
     rng = random.Random(seed())
     big = tier == "thorough"
-    projects = special_projects() + twin_projects(rng, 300 if big else 40) + context_fault_projects(rng, 400 if big else 60)
+    projects = special_projects() + deep_chain_projects() + twin_projects(rng, 300 if big else 40) + context_fault_projects(rng, 400 if big else 60)
     for i in range(2500 if big else 300):
         roots = treecorr.gen_structured(rng, with_macros=rng.random() < 0.25)
         if rng.random() < 0.25:
@@ -230,7 +246,7 @@ def run(tier, out, model_ok, proof):
     out.coverage.update({
         "evaluations": len(cases),
         "distinct_nontrivial": sum(1 for _, f, _ in metas if len(f) > 1),
-        "rule": "structured documents (some with one injected rule fault) cut at directive boundaries into include trees (whole sibling runs, or any contiguous run of directive lines; nesting <= 3, pieces in sub-directories, equal sibling runs included from the same file, files without a final newline, cuts after directives that still wait for children) + hand-picked projects + documents with a context-refused directive as the last one before an INCLUDE (the included file a continuation, empty, comment-only; INCLUDE without a final line end; nested) + projects in which one written include name is used from several directories and names different files; each project is built and compared with its textual inlining (lib/meta.py): catalog JSON, or message and corresponding file:line; forests are compared with the extracted Coq model; non-trivial = at least one INCLUDE",
+        "rule": "structured documents (some with one injected rule fault) cut at directive boundaries into include trees (whole sibling runs, or any contiguous run of directive lines; nesting <= 3, pieces in sub-directories, equal sibling runs included from the same file, files without a final newline, cuts after directives that still wait for children) + hand-picked projects + include chains 5 to 33 levels deep (with and without a rule fault in the innermost file) + documents with a context-refused directive as the last one before an INCLUDE (the included file a continuation, empty, comment-only; INCLUDE without a final line end; nested) + projects in which one written include name is used from several directories and names different files; each project is built and compared with its textual inlining (lib/meta.py): catalog JSON, or message and corresponding file:line; forests are compared with the extracted Coq model; non-trivial = at least one INCLUDE",
         "samples": [{n: d.decode("latin1")[:200] for n, d in projects[0].items()}],
         "traces_validated_against_impl": (len([c for c in cases if c["id"].startswith("p")]) - len(mism)) if model_ok else 0,
         "accepted_pairs": acc, "rejected_pairs": rej,
